@@ -124,6 +124,32 @@ def call_api(ws, api):
         return ("closed",)
 
 
+def retry_after_rejection(ws, sock, api, payload, why, desc):
+    """The caller logs the protocol error and calls again (twice): the rejected frame stays rejected - nothing of it is handed out later and it
+    is not answered (a forbidden ping gets no pong). What else the later calls yield is not specified."""
+    if len(payload) < 2:
+        return None
+    marker = bytes(payload[:8])
+    nw = len(sock.written)
+    sock.stream += R.encode(R.BINARY, b"\xa5after")
+    for again in range(2):
+        r2 = call_api(ws, api)
+        if r2[0] != "ret":
+            break
+        val = r2[1]
+        parts = [val] if not isinstance(val, tuple) else list(val)
+        for x in parts:
+            if isinstance(x, str):
+                x = x.encode("utf-8", "replace")
+            if isinstance(x, (bytes, bytearray)) and marker in bytes(x) and b"\xa5after" != bytes(x):
+                return ({"kind": "rejected-frame-delivered-on-retry", "class": why, "api": api},
+                        "%s was rejected with a protocol exception, but call %d after it returned %.60r (the rejected frame's payload)" % (desc, again + 2, r2))
+    wrote = bytes(sock.written[nw:])
+    if marker in R.unmask_all(wrote):
+        return ({"kind": "rejected-frame-answered-on-retry", "class": why, "api": api}, "%s was rejected, but a later call wrote a frame carrying its payload (%d bytes written)" % (desc, len(wrote)))
+    return None
+
+
 def bytes_case(b0, masked, n, in_msg, api, fire=0):
     if fire:
         return bytes_case_fire(b0, masked, n, api)
@@ -153,7 +179,7 @@ def bytes_case(b0, masked, n, in_msg, api, fire=0):
         if r[0] != "protocol":
             return ({"kind": "illegal-frame-not-rejected", "class": why, "api": api},
                     "forbidden frame (%s) was not rejected with a protocol exception: outcome %.80r for %s" % (why, r, desc))
-        return None
+        return retry_after_rejection(ws, sock, api, payload, why, desc)
     # legal frame: must be accepted
     if r[0] in ("protocol", "payload", "closed"):
         return ({"kind": "legal-frame-rejected", "opclass": R.NAMES.get(op, "?"), "api": api, "outcome": r[0]},
@@ -292,6 +318,18 @@ class SeqHarness:
                                      "fire": self.fire},
                                     "history %s (fire_cont_frame=%s skip_utf8_validation=%s): frame %s is forbidden here (%s) but the outcome was %.60r" % (
                                         " ".join(hist), bool(self.fire), bool(self.skip), name, seq_class(op, seq.in_msg is not None), r))
+                # the caller logs the error and calls again: the rejected frame stays rejected - its payload is never handed out later
+                # (what else the later calls yield - the next frame, a timeout, another error - is not specified)
+                sock.stream += R.encode(R.BINARY, b"\xa5after", fin=1)
+                for again in range(2):
+                    r2 = call_api(ws, self.api)
+                    flat = repr(r2)
+                    if r2[0] == "ret" and (repr(payload)[1:] in flat or (isinstance(r2[1], str) and payload.decode() == r2[1] and payload != b"")):
+                        raise Violation({"kind": "rejected-frame-delivered-on-retry", "class": seq_class(op, seq.in_msg is not None), "api": self.api, "fire": self.fire},
+                                        "history %s: frame %s was rejected with a protocol exception, but call %d after it returned %.60r (its payload)" % (
+                                            " ".join(hist), name, again + 2, r2))
+                    if r2[0] != "ret":
+                        break
                 return ("rejected", d)
             seq.step(fin, op)
             if r[0] in ("protocol", "payload", "closed"):
